@@ -21,6 +21,8 @@ shows it is *exactly* the set of failing cells.
 namespace MG.C03
 open MG.Dtype
 
+set_option linter.unusedSimpArgs false
+
 /-! ## enumerations -/
 
 instance : Enum Operand :=
